@@ -14,11 +14,15 @@ PROPS="$*"
 export GOFLAGS=-mod=mod GOPROXY=off GOSUMDB=off GOTOOLCHAIN=local
 DEMO_DIR="."; [ -f "$M/demo_dir" ] && DEMO_DIR=$(cat "$M/demo_dir")
 DEMO=$(ls "$M"/demo_*_test.go 2>/dev/null | head -1)
+if [ -z "$DEMO" ] && ls "$M"/demo_*_test.go.txt >/dev/null 2>&1; then # kept copies carry a .txt suffix so that they are never compiled
+  mkdir -p /tmp/demo-$$; for f in "$M"/demo_*_test.go.txt; do cp "$f" "/tmp/demo-$$/$(basename "${f%.txt}")"; done
+  DEMO=$(ls /tmp/demo-$$/demo_*_test.go | head -1)
+fi
 DEMO_FLAGS=""; [ -f "$M/demo_flags" ] && DEMO_FLAGS=$(cat "$M/demo_flags")
 
 WT=/tmp/wt-verify-$$
 git -C /repo worktree add -q --detach "$WT" HEAD || exit 2
-cleanup() { git -C /repo worktree remove --force "$WT" >/dev/null 2>&1; }
+cleanup() { git -C /repo worktree remove --force "$WT" >/dev/null 2>&1; rm -rf /tmp/demo-$$; }
 trap cleanup EXIT
 
 suite_with=fail; demo_with=pass; demo_without=fail
